@@ -506,6 +506,8 @@ fn main() {
     );
     // torn multi-record put over an existing embedding key
     run_case(&mut cx, "corpus torn-op", vec![vec![Op::Put(0, v(1, Some(100))), Op::Put(0, v(2, Some(101)))], vec![Op::Put(5, v(3, None))]], vec![pick_fixed_back(20), pick_end()]);
+    // a vector left behind by an overwrite without embedding, then a delete torn after its first record
+    run_case(&mut cx, "corpus stale-vector-torn-delete", vec![vec![Op::Put(0, v(1, Some(100))), Op::Put(0, v(2, None)), Op::Del(0)], vec![Op::Put(0, v(3, None))]], vec![pick_fixed_back(30), pick_end()]);
     // delete then re-create
     run_case(
         &mut cx,
